@@ -2322,13 +2322,19 @@ func c16StaleToken(e *c16Env) {
 		if !ok || CalleeName(call) != c16HTTPDo || len(call.Call.Args) != 2 {
 			return
 		}
-		cached := false
+		// the request is a clone that got a cached token (whatever it denotes; a request that may
+		// also be one of the freshly authorised clones is the final attempt, not a cached one)
+		cached, nreq := true, 0
 		for _, l := range V.LeavesIn(call.Call.Args[1], li.Ctx) {
-			if cachedClones[l] {
-				cached = true
+			if isNilConst(l.V) {
+				continue
+			}
+			nreq++
+			if !cachedClones[l] {
+				cached = false
 			}
 		}
-		if !cached {
+		if !cached || nreq == 0 {
 			return
 		}
 		n++
